@@ -26,7 +26,9 @@ TReset == IsEvent("reset") /\ skip' = FALSE /\ UNCHANGED vars
 TInit == /\ IsEvent("init")
          /\ kind' = Ev.kind
          /\ flav' = [r \in Reqs |-> IF r \in DOMAIN Ev.flav THEN Ev.flav[r] ELSE "good"]
-         /\ cache' = IF Ev.kind \in MarkerKinds THEN "absent" ELSE "present"
+         \* the context every request was sent in is an input of the execution (older logs: all in the original context)
+         /\ ctx' = [r \in Reqs |-> IF "ctx" \in DOMAIN Ev /\ r \in DOMAIN Ev.ctx THEN Ev.ctx[r] ELSE "c0"]
+         /\ cache' = [c \in AllCtx |-> IF Ev.kind \in MarkerKinds \/ c # "c0" THEN "absent" ELSE "present"]
          /\ pc' = [r \in Reqs |-> IF r \in DOMAIN Ev.flav THEN "idle" ELSE "absent"]
          /\ seen' = [r \in Reqs |-> FALSE]
          /\ out' = [r \in Reqs |-> "pending"]
@@ -38,7 +40,7 @@ TInit == /\ IsEvent("init")
 \* one primitive cache operation on the secret's key, performed by request Ev.r
 TOp == /\ IsEvent("op")
        /\ \/ /\ Ev.op = "get"
-             /\ Ev.hit = (cache = "present")
+             /\ Ev.hit = Has(Ev.r)
              /\ GadGet(Ev.r) \/ S2SGet(Ev.r) \/ JtiGet(Ev.r) \/ PreExists(Ev.r) \/ PreGet(Ev.r)
           \/ /\ Ev.op = "delete"
              /\ GadDel(Ev.r) \/ CodeDeferredDelete(Ev.r) \/ NonceBurn(Ev.r) \/ PreDel(Ev.r)
@@ -52,7 +54,7 @@ TEnd == /\ IsEvent("end")
 
 \* the validity window elapsed; logged: whether the cache really dropped the entry
 TTick == /\ IsEvent("tick") /\ Tick
-         /\ Ev.expired = (cache = "present" /\ cache' = "absent")
+         /\ Ev.expired = (\E c \in AllCtx : cache[c] = "present" /\ cache'[c] = "absent")
 
 \* events without a model counterpart: arrival of a request, primitives on other keys
 TStutter == /\ l <= Len(TraceLog) /\ Ev.ev \in {"begin", "other"}
@@ -76,7 +78,8 @@ TSkip == skip /\ l <= Len(TraceLog) /\ Ev.ev # "reset" /\ l' = l + 1 /\ UNCHANGE
 
 TraceNext == TReset \/ TFollow \/ TLeave \/ TSkip
 TraceInit ==
-    /\ kind = "code" /\ flav = [r \in Reqs |-> "good"] /\ cache = "present"
+    /\ kind = "code" /\ flav = [r \in Reqs |-> "good"] /\ ctx = [r \in Reqs |-> "c0"]
+    /\ cache = [c \in AllCtx |-> IF c = "c0" THEN "present" ELSE "absent"]
     /\ pc = [r \in Reqs |-> "absent"] /\ seen = [r \in Reqs |-> FALSE] /\ out = [r \in Reqs |-> "pending"]
     /\ ticks = 0 /\ lateRef = [r \in Reqs |-> FALSE] /\ lateTick = [r \in Reqs |-> FALSE] /\ hist = <<>>
     /\ l = 1 /\ skip = FALSE /\ TLCSet(1, 1)
